@@ -1,13 +1,6 @@
 package main
 
 func init() {
-	register(&PropertySpec{ID: "XLOCK", Rules: []RuleSpec{{"lock-pairing", "all", func(c *Ctx) {
-		var rels []string
-		for _, pk := range c.P.Pkgs {
-			rels = append(rels, pkgRel(pk.Types))
-		}
-		lockPairingPkgs(c, rels, symAssume("pkg/core/storage#private", false), 10)
-	}}}})
 	register(&PropertySpec{
 		ID: "C06",
 		Rules: []RuleSpec{
@@ -64,6 +57,16 @@ func init() {
 			{"opcode-tables", "every Opcode constant is valid in the decoder table, dispatched by vm.execute (arm or PUSHINT range test, faulting default), priced in fee.coefficients, and operand usage agrees between decoder and dispatcher", ruleOpcodeTables},
 		},
 		NotCovered: "numeric semantics at the 256-bit boundary, remainder signs, shift rounding, conversion rules — everything an independent specification would compare; the heart of C13 is not statically decidable here",
+	})
+	register(&PropertySpec{
+		ID: "C16",
+		Rules: []RuleSpec{
+			{"flags-effects", "for every system call and native-method registration the effects of the handler over the module-restricted call graph (contract-storage write, notification, script load) are covered by the declared required flags (legacy superseded registrations and the payment callback tabled)", ruleFlagsEffects},
+			{"native-flag-check", "native.Call and Context.SyscallHandler invoke the handler only behind the Has(RequiredFlags) test; the historical relaxation is confined to pre-Aspidochelone Management deploy/update", ruleFlagChecks},
+			{"call-guards", "safe methods are called with write/notify stripped, a deployed caller passes CanCall before a non-safe call, flags given to the loaders are the intersection with the current context's flags, and no other loader site exists in the execution closure", ruleCallGuards},
+			{"perm-method-check", "every allowing exit of Permission.IsAllowed passes the method-list check, hash/group kinds compare the callee, and switches over the permission kind are exhaustive", rulePermissions},
+		},
+		NotCovered: "ReadStates (several syscalls check it dynamically), Manifest.CanCall matching semantics beyond the method-list clause, group membership data",
 	})
 	register(&PropertySpec{
 		ID: "C07",
